@@ -44,6 +44,8 @@ def run(tier: str, seed: int) -> int:
     for j, inst in enumerate(insts):
         if j not in res:
             continue
+        if j % 50 == 49:
+            jax.clear_caches()  # long runs exhaust the process' memory mappings with compiled executables otherwise
         E = res[j]
         if float(E["det"]) <= 0:
             continue
